@@ -5,7 +5,7 @@ use crate::args;
 use crate::contracts::timelock::{CountTarget, TlWrap};
 use crate::report::Report;
 use crate::rng::Rng;
-use crate::world::{invoke, tag, Fail, World};
+use crate::world::{Must, invoke, tag, Fail, World};
 use crate::Cfg;
 use sha3::{Digest, Keccak256};
 use soroban_sdk::xdr::ToXdr;
@@ -101,7 +101,7 @@ fn history(cfg: &Cfg, rep: &mut Report, h: u64, steps: usize) {
         args!(e, target, Symbol::new(e, t.func), args!(e, t.k), BytesN::from_array(e, &t.pred), BytesN::from_array(e, &t.salt))
     };
     for (i, t) in tpls.iter().enumerate() {
-        let got: BytesN<32> = invoke(e, &c, "hash", call_args(t)).expect("hash");
+        let got: BytesN<32> = invoke(e, &c, "hash", call_args(t)).must("hash");
         rep.check("id", got.to_array() == t.id, "C08/id/hash_operation/differs-from-keccak-of-xdr", || format!("template {i}: contract id {:?}, own {:?}", got.to_array(), t.id));
         for (j, t2) in tpls.iter().enumerate() {
             if i < j {
@@ -223,7 +223,7 @@ fn history(cfg: &Cfg, rep: &mut Report, h: u64, steps: usize) {
         });
         // all states, all counters, after every call
         for (i, tp) in tpls.iter().enumerate() {
-            let s: u32 = invoke(e, &c, "state", args!(e, BytesN::from_array(e, &tp.id))).expect("state");
+            let s: u32 = invoke(e, &c, "state", args!(e, BytesN::from_array(e, &tp.id))).must("state");
             let want = state_code(st[i], cur);
             rep.check("ref", s == want, &format!("C08/ref/{name}/state"), || format!("after {name} T{ti}: template {i} reports state {s}, model {:?} at ledger {cur} (code {want})", st[i]));
         }
@@ -233,7 +233,7 @@ fn history(cfg: &Cfg, rep: &mut Report, h: u64, steps: usize) {
                 format!("target counter {kk} = {n}, successful executes = {}", executed[kk as usize])
             });
         }
-        let md: u32 = invoke(e, &c, "min_delay", args!(e)).expect("min_delay");
+        let md: u32 = invoke(e, &c, "min_delay", args!(e)).must("min_delay");
         rep.check("ref", md == min_delay, &format!("C08/ref/{name}/min_delay"), || format!("min_delay {md}, model {min_delay}"));
         rep.evaluations += (nt + 7) as u64;
     }
